@@ -8,7 +8,7 @@ CFG = {
             "frame_len_checked_before_alloc", "frame_recv_ok_iff", "frame_unchecked_allocates", "preface_alloc_bounded",
             "noise_buffers_in_bounds", "noise_frame_always_fits",
             "timestamp_read_total", "duration_read_total", "duration_read_ok_iff", "duration_read_value",
-            "timestamp_read_legacy_panics", "duration_legacy_panics_iff", "timestamp_display_total", "timestamp_display_legacy_panics", "timestamp_display_legacy_panics_iff", "timestamp_debug_can_panic", "timestamp_debug_ok_iff",
+            "timestamp_read_legacy_panics", "duration_legacy_panics_iff", "timestamp_display_total", "timestamp_display_legacy_panics", "timestamp_display_legacy_panics_iff", "timestamp_debug_total", "timestamp_debug_legacy_panics", "timestamp_debug_legacy_panics_iff",
             "bitvec_read_total", "bitvec_read_ok_iff", "socketaddr_read_total",
             "ratelimit_read_total", "read_total", "all_readers_safe", "every_reader_total", "genesis_read_total",
             "genesis_read_legacy_panics", "read_language_can_panic", "canonical_total", "canonical_legacy_panics_iff",
